@@ -71,15 +71,65 @@ Definition split_mem (picodata : list Z) : result raw_data :=
         r_version := v |}.
 
 (* ---------- pixel rows ---------- *)
+(* The per-pixel loops of get_pngdata_from_picodata / get_picodata_from_pngdata are modelled statement by
+   statement in Model/PngStego.v (index arithmetic and four stores per pixel on Python lists).  Executed
+   literally that model is quadratic in the image size, so the runner uses the closed forms below on
+   well-shaped input (RGBA rows of bytes) and the loop model otherwise; Proofs/P8PngProofs.v proves
+   the two equal on every input (rows_fast_eq, picodata_fast_eq). *)
+(* the four channel values written for one pixel, in row order (channel 0..3), and the byte read back *)
+Definition pack4 (r g b a pb : Z) : list Z :=
+  let row := fun i => if i =? 0 then r else if i =? 1 then g else if i =? 2 then b else a in
+  [pn_val_2 row 0 4 pb; pn_val_1 row 0 4 pb; pn_val_0 row 0 4 pb; pn_val_3 row 0 4 pb].
+
+Definition unpack4 (r g b a : Z) : Z :=
+  let row := fun i => if i =? 0 then r else if i =? 1 then g else if i =? 2 then b else a in
+  Z.lor (Z.lor (Z.lor (Z.lor 0 (pd_val_0 row 0 4)) (pd_val_1 row 0 4)) (pd_val_2 row 0 4)) (pd_val_3 row 0 4).
+
+Fixpoint pack_row (row bs : list Z) : list Z :=
+  match row with
+  | r :: g :: b :: a :: rest =>
+    match bs with
+    | pb :: bs' => pack4 r g b a pb ++ pack_row rest bs'
+    | [] => r :: g :: b :: a :: pack_row rest []
+    end
+  | _ => []
+  end.
+
+Fixpoint pack_rows (w : nat) (rows : list (list Z)) (bs : list Z) : list (list Z) :=
+  match rows with
+  | [] => []
+  | row :: rs => pack_row row (firstn w bs) :: pack_rows w rs (skipn w bs)
+  end.
+
+Fixpoint unpack_row (row : list Z) : list Z :=
+  match row with
+  | r :: g :: b :: a :: rest => unpack4 r g b a :: unpack_row rest
+  | _ => []
+  end.
+
+
+Definition wf_rowsb (w : nat) (rows : list (list Z)) : bool :=
+  forallb (fun row => (zlen row =? 4 * Z.of_nat w) && all_bytes row) rows.
+
+Definition rows_of_picodata_fast (picodata : list Z) (planes : Z) (rows : list (list Z)) : result (list (list Z)) :=
+  let w := match rows with [] => O | row :: _ => Z.to_nat (zlen row / 4) end in
+  if (planes =? 4) && all_bytes picodata && wf_rowsb w rows then Ok (pack_rows w rows picodata)
+  else rows_of_picodata picodata planes rows.
+
+Definition picodata_of_rows_fast (width height planes : Z) (rows : list (list Z)) : result (list Z) :=
+  if (planes =? 4) && (0 <=? width) && (zlen rows =? height) && wf_rowsb (Z.to_nat width) rows
+  then Ok (concat (map unpack_row rows))
+  else picodata_of_rows width height planes rows.
+
 (* to_file after the label image was read: rows handed to png.Writer.write *)
 Definition write_png_pixels (c : cart) (planes : Z) (img : list (list Z)) : result (list (list Z)) :=
   code_bytes <- get_bytes_from_code (c_code c) ;;
   picodata <- join_mem c code_bytes ;;
-  rows_of_picodata picodata planes img.
+  rows_of_picodata_fast picodata planes img.
 
 (* get_raw_data_from_p8png_file after png.Reader.read *)
 Definition read_png_pixels (width height planes : Z) (rows : list (list Z)) : result cart :=
-  picodata <- picodata_of_rows width height planes rows ;;
+  picodata <- picodata_of_rows_fast width height planes rows ;;
   d <- split_mem picodata ;;
   '(_, code, _) <- get_code_from_bytes (r_codedata d) (r_version d) ;;
   Ok {| c_gfx := r_gfx d; c_map := r_map d; c_gff := r_gff d; c_music := r_music d; c_sfx := r_sfx d;
